@@ -194,6 +194,22 @@ MUTATIONS = {
         ["C11"],
         [("flox/core.py", "out_chunks[axis[-1]] = tuple(len(c) for c in chunks_cohorts.values())", "out_chunks[axis[-1]] = tuple(len(c) for c in chunks_cohorts.keys())")],
     ),
+    "partial_axis_guard_deleted": (
+        ["C19", "C08"],
+        [("flox/core.py", '        if nax != by_.ndim and method in ["blockwise", "cohorts"]:', '        if False and nax != by_.ndim and method in ["blockwise", "cohorts"]:')],
+    ),
+    "arg_blockwise_guard_deleted": (
+        ["C19", "C06"],
+        [("flox/core.py", '        if _is_arg_reduction(agg) and method == "blockwise" and not single_block:', '        if False and _is_arg_reduction(agg) and method == "blockwise" and not single_block:')],
+    ),
+    "collapse_blocks_fix_reverted": (
+        ["C19"],
+        [("flox/core.py", "((1,),) * (len(axis) - 1) + group_chunks", "((1,) * (len(axis) - 1),) + group_chunks")],
+    ),
+    "cohorts_dask_labels_guard_deleted": (
+        ["C19"],
+        [("flox/core.py", '    if method == "cohorts" and any_by_dask:\n        raise ValueError', '    if False and method == "cohorts" and any_by_dask:\n        raise ValueError')],
+    ),
     "nanmin_combine_min": (
         ["C04"],
         [("flox/aggregations.py", '    chunk="nanmin",\n    combine="nanmin",', '    chunk="nanmin",\n    combine="min",')],
